@@ -82,6 +82,12 @@ def parseSigTok (sessSecret : Bytes) (s : String) : Option Bytes :=
       | _ => none
     | _ => none
 
+/-- SecureParam tokens: `ok` = the remote's ephemeral key; everything else is rejected by
+    `secureKey.setup` (`bad` junk; well-sized but invalid points: `z0` (0,0), `oc` off curve,
+    `xp` x = P, `yp` y ≥ P; `sm` 64 bytes; `c2` compressed form) -/
+def paramOk (s : String) : Bool :=
+  s = "ok" ∨ s = "bad" ∨ s = "z0" ∨ s = "oc" ∨ s = "xp" ∨ s = "yp" ∨ s = "sm" ∨ s = "c2"
+
 def natList (s : String) : Option (List Nat) :=
   if s = "_" then some []
   else (s.splitOn ",").foldr (fun t acc => match t.toNat?, acc with
@@ -196,14 +202,14 @@ def step (s : St) (toks : List String) : St × String :=
   | ["secreq", suites, aeads, param] =>
     match natList suites, natList aeads with
     | some ss, some as =>
-      if param = "ok" ∨ param = "bad" then
+      if paramOk param then
         deliver s (.secureRequest ss as (if param = "ok" then [1] else [0]))
       else (s, "bad-op")
     | _, _ => (s, "bad-op")
   | ["secresp", suite, aead, param, err] =>
     match suite.toNat?, aead.toNat? with
     | some su, some ae =>
-      if su < 256 ∧ ae < 256 ∧ (param = "ok" ∨ param = "bad") ∧ (err = "0" ∨ err = "1") then
+      if su < 256 ∧ ae < 256 ∧ paramOk param ∧ (err = "0" ∨ err = "1") then
         deliver s (.secureResponse su ae (if param = "ok" then [1] else [0]) (err = "1"))
       else (s, "bad-op")
     | _, _ => (s, "bad-op")
